@@ -46,7 +46,7 @@ CHECKS = {
          "finite history (C05_histories), with C05_reject (ValueError, exactly when one match without merge or several "
          "matches), C05_shape / C05_resolves (append unchanged or merge keeping canonical prefix, URI prefix and pattern), "
          "and C05_fresh / C05_histories_fresh (answers equal those of a converter freshly built from the current records, "
-         "via T0 and permutation invariance of the specification). Correspondence replays histories with planted overlaps "
+         "via T0 and permutation invariance of the specification), C05_lookup_structures (after any history prefix_map, synonym_to_prefix, reverse_prefix_map, the trie and pattern_map are, as functions, the ones computed from the current records; the Lean checker evaluates the same statement on the dictionaries the implementation exposes). Correspondence replays histories with planted overlaps "
          "and observes records, all five lookup structures and a probe set after every operation.",
     design="§7 C05", technique="Lean 4 theorem (invariant by induction over operation histories, refinement T0) + history correspondence with full observation after each step"),
  "C06": dict(
